@@ -1,17 +1,35 @@
 #!/bin/bash
-# tools/try_mutant.sh <patch> <check-id>... : applies a patch to /repo, runs the given quick checks, and undoes it.
-P=$1; shift
-cd /repo && git diff --quiet || { echo "/repo is dirty"; exit 2; }
-git -C /repo apply "$P" 2>/dev/null || git -C /repo apply --3way "$P" || { echo "patch does not apply"; git -C /repo checkout -- .; exit 2; }
-git -C /repo reset -q
+# tools/try_mutant.sh <patch> <check-id>... : runs the given quick checks against a seeded change.
+# By default in isolation: a scratch worktree of /repo HEAD (under /tmp) gets the patch, a copy of the harness is
+# pointed at it, and evidence / replay files go to a scratch directory - so /repo, /verif/evidence and any check running
+# concurrently are untouched. With IN_PLACE=1 the patch is applied to /repo itself and undone afterwards
+# (git -C /repo apply; ./check; git -C /repo checkout -- .), which is what the isolated mode is equivalent to.
+P=$(readlink -f "$1"); shift
+if [ -n "$IN_PLACE" ]; then
+  cd /repo && git diff --quiet || { echo "/repo is dirty"; exit 2; }
+  git -C /repo apply "$P" 2>/dev/null || git -C /repo apply --3way "$P" || { echo "patch does not apply"; git -C /repo checkout -- .; exit 2; }
+  git -C /repo reset -q
+  cd /verif
+  for c in "$@"; do ./check $c --tier ${TIER:-quick}; done
+  git -C /repo checkout -- .
+  python3 -c "import sys; sys.path.insert(0, '/verif'); from vlib import common; common.build(('rel', 'dev'))"
+  exit 0
+fi
+S=/tmp/mutant-$$
+mkdir -p $S/out
+git -C /repo worktree add -q --detach $S/repo HEAD || exit 2
+cp /repo/Cargo.lock $S/repo/
+( cd $S/repo && { git apply "$P" 2>/dev/null || git apply --3way "$P"; } ) || { echo "patch does not apply"; git -C /repo worktree remove --force $S/repo; rm -rf $S; exit 2; }
+mkdir -p $S/harness && cp -r /verif/harness/src /verif/harness/shim.c /verif/harness/Cargo.lock $S/harness/
+sed "s#path = \"/repo\"#path = \"$S/repo\"#" /verif/harness/Cargo.toml > $S/harness/Cargo.toml
 cd /verif
 for c in "$@"; do
-  out=$(./check $c --tier ${TIER:-quick} 2>&1)
+  out=$(VERIF_HARNESS=$S/harness VERIF_TARGET=$S/target VERIF_OUT=$S/out ./check $c --tier ${TIER:-quick} 2>&1)
   code=$?
   echo "== $c exit=$code: $(echo "$out" | grep -c '^VIOLATION') violation lines"
   echo "$out" | grep -A1 '^VIOLATION' | grep -v '^--' | cut -c1-260 | head -8
   echo "$out" | tail -1 | cut -c1-200
 done
-git -C /repo checkout -- .
-# leave no driver built from the patched tree behind
-python3 -c "import sys; sys.path.insert(0, '/verif'); from vlib import common; common.build(('rel', 'dev'))"
+git -C /repo worktree remove --force $S/repo
+git -C /repo worktree prune
+rm -rf $S
